@@ -52,9 +52,13 @@ def act_line(rng, fail_at=-1, fail_from=-1):
     tot = 0
     for _ in range(rng.randrange(0, 8)):
         L = rng.choice([0, 1, 3, 40])
+        if rng.random() < 0.12:      # appends at and beyond the one-octet limit, incl. multiples of 256 (refused; nothing may be kept)
+            L = rng.choice([255 - tot, 256 - tot, 255, 256, 257, 511, 512, 768, 1024, 65536, 65536 + 256 - tot])
         if tot + L > 255:
-            break
-        tot += L
+            if rng.random() < 0.3:
+                break
+        else:
+            tot += L
         ds.append("D:" + hx([rng.randrange(256) for _ in range(L)]))
     return "allocact %d %d %s" % (fail_at, fail_from, " ".join(ds))
 
